@@ -471,11 +471,15 @@ func infixTree(r *Rand, d int) *GT {
 	if d <= 0 || r.Intn(4) == 0 {
 		switch r.Intn(7) {
 		case 0:
-			return gconst(int64(r.Intn(30)))
+			return gconst(int64(r.Intn(30)) - 8) // negative literals too: `a - -3`, `-3 * a`
 		case 1:
 			return gconst(strLits[r.Intn(len(strLits))])
 		case 2:
-			return gconst([]int64{int64(r.Intn(5)), 2})
+			l := make([]int64, 1+r.Intn(3)) // bracket lists with negative elements at any position: [1 -2 3]
+			for i := range l {
+				l[i] = int64(r.Intn(9)) - 4
+			}
+			return gconst(l)
 		case 3:
 			return gconst(r.Bool())
 		default:
